@@ -182,6 +182,95 @@ impl SubCheck for EarlyStop {
     }
 }
 
+/// (b') the same question with the harness owning the schedule (C05's cooperative scheduler):
+/// two workers can be made to discover the same property at the same moment, to finish a block
+/// while the other is between "has this property a discovery?" and recording one, etc.
+pub struct EarlyStopScheduled;
+impl SubCheck for EarlyStopScheduled {
+    type Case = crate::props::c05::SchedCase;
+    fn name(&self) -> &'static str {
+        "early_stop_reasons_under_owned_schedules"
+    }
+    fn cases(&self, tier: Tier) -> u32 {
+        tier.pick(2500, 50000)
+    }
+    fn max_shrink_iters(&self) -> u32 {
+        600
+    }
+    fn strategy(&self, _tier: Tier) -> BoxedStrategy<Self::Case> {
+        use crate::props::c05::{SchedCase, Stop};
+        let mut p = GraphParams::small();
+        p.max_n = 14;
+        p.max_deg = 3;
+        p.max_props = 3;
+        p.min_props = 2;
+        p.oob_rate = 10;
+        p.exps = vec![Exp::Always, Exp::Sometimes];
+        p.shapes = vec![(3, Shape::Dag(2)), (2, Shape::Dag(3)), (2, Shape::Uniform), (1, Shape::Forest)];
+        p.max_inits = 2;
+        (graph_strategy(p), prop_oneof![Just(Strat::Bfs), Just(Strat::Dfs)], 2usize..=3, 1usize..=2, finish_strategy(3), proptest::collection::vec(any::<u8>(), 20..200))
+            .prop_map(|(g, strat, threads, block, finish, schedule)| SchedCase { g, strat, threads, block, stop: finish.map_or(Stop::Exhaust, Stop::FinishWhen), schedule, yield_in_model: true, real_threads: false })
+            .boxed()
+    }
+    fn check(&self, c: &Self::Case, cov: &mut Cov) -> Result<(), Fail> {
+        use crate::props::c05::{run_scheduled, Joined, Stop, JOIN_WAIT_S};
+        let out = run_scheduled(c, Duration::from_secs(JOIN_WAIT_S));
+        cov.eval();
+        if out.stuck {
+            fail!("inconclusive/scheduler-watchdog", "a controlled thread did not reach a scheduling point within the watchdog");
+        }
+        if let Some(d) = &out.deadlock {
+            fail!("c12/scheduled/worker-sleeps-forever", "logical deadlock: {}", d);
+        }
+        if !matches!(out.joined, Joined::Returned) {
+            fail!("c12/scheduled/join-did-not-return-normally", "{} threads={} block={} stop={:?}", c.strat.label(), c.threads, c.block, c.stop);
+        }
+        let g = &c.g;
+        let r = g.reach();
+        let disc: BTreeSet<String> = match &out.discovered {
+            Ok(d) => d.iter().map(|s| s.to_string()).collect(),
+            Err(_) => return Ok(()),
+        };
+        let visited: BTreeSet<u32> = out.visits.iter().map(|v| v.path.last().unwrap().0 .0).collect();
+        let exps: Vec<Exp> = g.props.iter().map(|p| p.exp).collect();
+        let finish = match &c.stop {
+            Stop::FinishWhen(f) => f.clone(),
+            _ => Finish::All,
+        };
+        let finish_holds = finish_literal(&finish, &exps, &disc);
+        let all_discovered = disc.len() == g.props.len();
+        let exhausted = r.set.is_subset(&visited);
+        if !exhausted {
+            ensure!(finish_holds || all_discovered, format!("c12/scheduled/stopped-early-without-reason/{}", c.strat.label()), "{} with {} workers, block {}: evaluated {} of {} reachable states, but the finish condition {:?} does not hold for the discoveries {:?} and not every property has one", c.strat.label(), c.threads, c.block, visited.len(), r.set.len(), finish, disc);
+        }
+        let workers: BTreeSet<&str> = out.visits.iter().map(|v| v.thread.as_str()).collect();
+        cov.label(c.strat.label());
+        cov.label(&format!("finish/{}", variant_name(&finish)));
+        cov.label_if(workers.len() >= 2, "two_workers_did_work");
+        cov.label_if(!exhausted && finish_holds && !all_discovered, "stopped_by_finish_condition");
+        cov.label_if(exhausted && !finish_holds, "exhausted_without_match");
+        // the same property witnessed by two states that different workers evaluated
+        let witnessed_twice = g.props.iter().any(|p| {
+            let ws: BTreeSet<&str> = out.visits.iter().filter(|v| {
+                let s = v.path.last().unwrap().0 .0;
+                (p.exp == Exp::Sometimes) == p.on.contains(&s)
+            }).map(|v| v.thread.as_str()).collect();
+            ws.len() >= 2
+        });
+        cov.label_if(witnessed_twice, "one_property_witnessed_by_two_workers");
+        if workers.len() >= 2 {
+            cov.nontrivial(c);
+            if cov.wants_sample() {
+                cov.sample(json!({"graph": g, "strategy": c.strat.label(), "threads": c.threads, "block": c.block, "finish_when": finish, "evaluated": visited.len(), "reachable": r.set.len(), "discovered": disc}));
+            }
+        }
+        Ok(())
+    }
+    fn mandatory(&self) -> Vec<&'static str> {
+        vec!["bfs", "dfs", "two_workers_did_work", "stopped_by_finish_condition", "exhausted_without_match", "one_property_witnessed_by_two_workers", "finish/All"]
+    }
+}
+
 // ---------------------------------------------------------------------------------------------
 // (c) target_max_depth
 // ---------------------------------------------------------------------------------------------
@@ -365,6 +454,6 @@ pub fn spec() -> PropSpec {
         level: "exploration",
         rule: "Five generated families. (a) HasDiscoveries::matches on generated (property expectations, discovered subset, variant) against the literal reading of the variant name. (b) generated graph x strategy x threads x finish_when x target_state_count: if fewer states were evaluated than are reachable, then the finish condition holds for the final discoveries, or every property has a discovery, or state_count >= target (simulation: one of the configured reasons holds after join). (c) target_max_depth 1..6: no visitor path has more states than the limit; single-threaded BFS evaluates every state nearer than the limit. (d) timeouts in child processes: bounded stop on an unbounded model, no effect while unexpired. (e) single-threaded simulation run twice with one seed: identical first trace; recording chooser sees the user's seed first. Non-trivial = the control actually binds (stopped before exhaustion / a state at or beyond the depth limit exists / trace of >= 3 states / partial discovery set); distinct by hash of the case.",
         assumptions: vec!["timing oracles only in the direction OS noise cannot produce (policy in DESIGN.md 2.5)"],
-        subs: vec![Box::new(Matches), Box::new(EarlyStop), Box::new(Depth), Box::new(SeedReplay), Box::new(crate::props::c12d::Timeouts)],
+        subs: vec![Box::new(Matches), Box::new(EarlyStop), Box::new(EarlyStopScheduled), Box::new(Depth), Box::new(SeedReplay), Box::new(crate::props::c12d::Timeouts), Box::new(crate::props::c12d::IdleWorkersAtExpiry)],
     }
 }
